@@ -21,7 +21,8 @@ class Contract:
     def __init__(self, target, params=None, requires=(), ensures=(),
                  raises=None, loops=(), result=None, serves=(), yields=None,
                  env=None, note='', name=None, self_obj=None, cases=None,
-                 budget=None, skip_self=False):
+                 budget=None, skip_self=False, native=None,
+                 native_scope=None, always_raises=False):
         self.target = target
         self.params = params or {}
         self.requires = list(requires)
@@ -42,6 +43,10 @@ class Contract:
         self.self_obj = self_obj
         self.cases = cases
         self.budget = budget
+        self.native = native
+        if native_scope is not None:
+            self.native_scope = native_scope
+        self.always_raises = always_raises
 
     def resolve(self, world):
         parts = self.target.split('.')
@@ -280,6 +285,12 @@ def _run_path(world, c, params, tag, it, path, rep, first):
     post.vars['calls'] = tuple(it.calls)
     post.vars.update(it.ghost_vars)
     sfx = ':' + tag if tag else ''
+    if outcome == 'return' and getattr(c, 'cover_mode', False):
+        ok = path.feasible()
+        path.obligations.append(Obligation(
+            '%s:cover-path' % c.short, 'cover', fnode.lineno,
+            'failed' if ok else 'proved', 0.0, 'z3'))
+        return
     if outcome == 'return':
         for j, e in enumerate(c.ensures):
             g = world.spec_eval(it, e, post)
